@@ -44,7 +44,7 @@ def plan(tier):
     return {"cases": 400 if tier == "quick" else 10000, "shards": 16, "case_timeout": 60, "shard_timeout": 3000,
             "min_nontrivial": 60,
             "min_counters": {"diagrams_built": 300, "fields_classified": 2500, "association_edges_checked": 600,
-                             "inheritance_edges_checked": 200, "contract_evaluations": 1500, "fields_with_two_wrappers": 40}}
+                             "inheritance_edges_checked": 200, "contract_evaluations": 1500, "fields_with_two_wrappers": 40, "same_name_in_two_modules_diagrams": 3}}
 
 
 class Mutated(AssertionError):
@@ -119,9 +119,12 @@ def gen(rng, tier, ctx):
     subset = rng.sample(names, k)
     ops = [rng.choice(READ_OPS) for _ in range(rng.randint(1, 6))]
     split = rng.random() < 0.35
-    if split:
-        # names imported only under TYPE_CHECKING are resolvable through the diagram: keep every class in it
+    if split and rng.random() < 0.6:
+        # every class in the diagram: the names imported only under TYPE_CHECKING are resolved through it (else through
+        # the loaded modules, however many of them a class names)
         subset = rng.sample(names, len(names))
+    if rng.random() < 0.03:
+        return {"handwritten": "same_name_in_two_modules", "order": rng.randrange(2)}
     return {"spec": spec, "subset": subset, "ops": ops, "arg": rng.randrange(1000), "split": split,
             "postponed": split or rng.random() < 0.6, "repeat": rng.randrange(100) if rng.random() < 0.15 else None,
             "view_first": rng.choice([None, None, 0, 1])}
@@ -135,6 +138,8 @@ def witnesses():
     two = {"module": "dw_twowrappers", "order": ["K0", "K1"], "profile": "diagram", "classes": [
         cl("K0", None, [f("uid", "int"), f("f0_0", "opt_list_ref", "K1"), f("f0_1", "list_opt_ref", "K1")]), cl("K1", None, [f("uid", "int")])]}
     return {"subdiagram-mutates-original": {"spec": spec, "subset": ["K0", "K1", "K2"], "ops": ["subdiagram"], "arg": 0},
+            "same-name-in-two-modules-resolved-to-the-other-class": {"handwritten": "same_name_in_two_modules", "order": 0},
+            "second-missing-name-not-looked-for": {"handwritten": "same_name_in_two_modules", "order": 1},
             "type-behind-two-wrappers-not-seen": {"spec": two, "subset": ["K0", "K1"], "ops": [], "arg": 0},
             "class-listed-twice-is-two-nodes": {"spec": spec, "subset": ["K0", "K1", "K2"], "ops": ["subdiagram"], "arg": 0, "repeat": 0}}
 
@@ -181,9 +186,110 @@ def independent_analysis(mod, classes):
     return inherit, assoc, flags
 
 
+TWIN_SOURCES = {
+    "c17_shop": """
+from __future__ import annotations
+from dataclasses import dataclass
+from typing import List, Optional, TYPE_CHECKING
+if TYPE_CHECKING:
+    from c17_warehouse import Shelf
+    from c17_geometry import Position, Orientation
+
+
+@dataclass
+class Item:
+    price: int = 0
+
+
+@dataclass
+class Pose:
+    position: Position = None
+    orientation: Optional[Orientation] = None
+
+
+@dataclass
+class Cart:
+    item: Item = None
+    items: List[Item] = None
+    shelf: Optional[Shelf] = None
+""",
+    "c17_geometry": """
+from dataclasses import dataclass
+
+
+@dataclass
+class Position:
+    x: float = 0.0
+
+
+@dataclass
+class Orientation:
+    w: float = 1.0
+""",
+    "c17_warehouse": """
+from __future__ import annotations
+from dataclasses import dataclass
+
+
+@dataclass
+class Item:
+    weight: int = 0
+
+
+@dataclass
+class Shelf:
+    item: Item = None
+""",
+}
+
+
+def run_same_name_in_two_modules(case, ctx):
+    """two modules that each define a class `Item`; a class that also names a class it imports only under TYPE_CHECKING
+    (so that its annotations need the fallback resolution): every field refers to the Item of its own module"""
+    from krrood.class_diagrams.class_diagram import ClassDiagram
+    C = ctx["counters"]
+    mods = {}
+    for name, src in TWIN_SOURCES.items():
+        if name not in sys.modules:
+            m = types.ModuleType(name)
+            sys.modules[name] = m
+            exec(src, m.__dict__)
+        mods[name] = sys.modules[name]
+    shop, wh = mods["c17_shop"], mods["c17_warehouse"]
+    geo = mods["c17_geometry"]
+    # Pose names two classes that are neither defined in its module nor part of the diagram
+    classes = [shop.Item, wh.Item, wh.Shelf, shop.Cart, shop.Pose]
+    if case.get("order"):
+        classes = [wh.Item, shop.Item, shop.Pose, wh.Shelf, shop.Cart]
+    got = {}
+    for with_pose in (False, True):
+        try:
+            cd = ClassDiagram([c for c in classes if with_pose or c is not shop.Pose])
+            got.update({(w.clazz.__module__, w.clazz.__name__, f.field.name): f.type_endpoint for w in cd.wrapped_classes for f in w.fields})
+        except Exception as e:
+            return {"status": "fail", "kind": "construction:" + type(e).__name__, "key": None,
+                    "detail": ("a class that names two classes outside its module and outside the diagram" if with_pose else
+                               "classes of the same name in two modules") + f": {type(e).__name__}: {e}"[:300]}
+    C["same_name_in_two_modules_diagrams"] += 1
+    want = {("c17_shop", "Cart", "item"): shop.Item, ("c17_shop", "Cart", "items"): shop.Item, ("c17_shop", "Cart", "shelf"): wh.Shelf,
+            ("c17_warehouse", "Shelf", "item"): wh.Item, ("c17_shop", "Pose", "position"): geo.Position,
+            ("c17_shop", "Pose", "orientation"): geo.Orientation}
+    wrong = {k: (got.get(k), v) for k, v in want.items() if got.get(k) is not v}
+    if wrong:
+        return {"status": "fail", "kind": "diagram", "key": None,
+                "detail": "; ".join(f"{k[1]}.{k[2]} (module {k[0]}) refers to {g!r}, its annotation names {v!r}" for k, (g, v) in wrong.items())[:500]}
+    return {"status": "ok", "nontrivial": True, "shape": "handwritten:same_name_in_two_modules:" + str(case.get("order"))}
+
+
 def run(case, ctx):
     from krrood.class_diagrams.class_diagram import ClassDiagram, Association, Inheritance
+    from krrood.class_diagrams import wrapped_field as WF
     C = ctx["counters"]
+    # the look-up of a class by its bare name in the loaded modules is remembered per name: every case has modules of
+    # its own with classes K0, K1, ...
+    WF.manually_search_for_class_name.cache_clear()
+    if case.get("handwritten") == "same_name_in_two_modules":
+        return run_same_name_in_two_modules(case, ctx)
     spec = case["spec"]
     modname = spec["module"]
     loaded = []
